@@ -129,7 +129,7 @@ def oracles():
             return 'count_residues does not count every residue once'
         return None
 
-    iso = constants.ISOTOPIC_ATOMIC_MASSES
+    iso = E.REF_ISOTOPE_MASS      # hand-typed reference, independent of the library's element table (data/chem.txt)
 
     def label_delta(lab):
         return iso[lab] - iso[E.LABEL_ELEMENT[lab]]
@@ -218,6 +218,7 @@ def run(chk):
         cases.append(_case(a, rules))
         chk.count('len_%02d' % len(a._sequence))
         chk.count('rules_%d' % len(rules))
+        chk.count('rule_2mods_3targets', sum(1 for m, t in rules if len(m) == 2 and len(t) == 3))
         for m, t in rules:
             for x in t:
                 chk.count('target_' + ('term' if x in ('N-Term', 'C-Term') else 'residue'))
